@@ -112,7 +112,12 @@ def check_file(ctx, path, source, variant, text=None, want_stats=None):
         if dc["hapto"]:
             ctx.count("fragments:with-hapto")
         if diff:
-            ctx.disagree("constitution of a fragment", rp({"fragment": f["id"]}), str(impl)[:1500], str(model)[:1500])
+            import xml.etree.ElementTree as ET
+
+            ctx.disagree("constitution of a fragment",
+                         {"source": source, "variant": variant, "fragment": f["id"], "diff": diff,
+                          "fragment_xml": ET.tostring(f["elt"], encoding="unicode")[:2500]},
+                         str(impl)[:600], str(model)[:600])
         # (a) counts straight from the XML
         if not isinstance(impl, str) and not dc["malformed"]:
             oracle_counts(ctx, impl, dc, rp({"fragment": f["id"]}))
@@ -138,7 +143,8 @@ def check_file(ctx, path, source, variant, text=None, want_stats=None):
             if not distinct:
                 ctx.count("labels:equidistant-candidates")
             if got != mid and (distinct or lab["sibling"]):
-                ctx.disagree("label -> fragment", rp({"label": key}), got, mid)
+                ctx.disagree("label -> fragment", {"source": source, "variant": variant, "label": key,
+                                                    "group_fragment": lab["sibling"]}, got, mid)
             # (d) a grouped label belongs to the fragment of its group
             if lab["sibling"] is not None and got != lab["sibling"]:
                 ctx.violation("C13:label-not-resolved-to-group-fragment",
@@ -232,7 +238,7 @@ def compare_variant(ctx, source, vname, base, var, id_labels=False, text=None):
                           replay_of(source, vname, {"label": k}, text))
 
 
-def mirror_check(ctx, source, base, mir):
+def mirror_check(ctx, source, base, mir, text=None):
     """(b) same constitution; handedness of every non-planar centre inverted"""
     (d0, p0), (d1, p1) = base, mir
     for f in d0.frags:
@@ -243,11 +249,11 @@ def mirror_check(ctx, source, base, mir):
         if isinstance(c0, str) or isinstance(c1, str):
             if c0 != c1:
                 ctx.violation("C13:mirror:constitution-changed", f"{source} fragment {fid}: {c0 if isinstance(c0, str) else 'parsed'} vs mirrored {c1 if isinstance(c1, str) else 'parsed'}",
-                              replay_of(source, "mirror", {"fragment": fid}))
+                              replay_of(source, "mirror", {"fragment": fid}, text))
             continue
         diff = L.same_constitution(c0, c1)
         if diff:
-            ctx.violation("C13:mirror:constitution-changed", f"{source} fragment {fid}: {diff}", replay_of(source, "mirror", {"fragment": fid}))
+            ctx.violation("C13:mirror:constitution-changed", f"{source} fragment {fid}: {diff}", replay_of(source, "mirror", {"fragment": fid}, text))
             continue
         quads = L.centres(None, c0)
         if not quads:
@@ -272,7 +278,7 @@ def mirror_check(ctx, source, base, mir):
                           f"{source} fragment {fid}: centre atom {centre} (Z={el}) with neighbours {list(q[1:])}: handedness {a} in the "
                           f"original, {b} after mirroring the stereo marks ({len(bad)} of {len(quads)} centre triples wrong)",
                           replay_of(source, "mirror", {"fragment": fid, "centre": centre, "neighbours": list(q[1:]),
-                                                       "original": a, "mirrored": b, "bad_triples": len(bad)}))
+                                                       "original": a, "mirrored": b, "bad_triples": len(bad)}, text))
 
 
 # --------------------------------------------------------------------------------------
@@ -462,7 +468,7 @@ def run(ctx):
         sources.append(("corpus:" + p.name, p, p.read_text()))
     for p in sorted((REPO / "molli" / "files").glob("*.cdxml")):
         sources.append((rel(p), p, None))
-    nsyn = (3, 6) if ctx.quick() else (25, 80)
+    nsyn = (6, 20) if ctx.quick() else (150, 500)
     for i in range(nsyn[0]):
         t = synth_constitution(rng, 14 if ctx.quick() else 20)
         p = work / f"synth_const_{i}.cdxml"
@@ -488,6 +494,14 @@ def run(ctx):
             mp = L.variant_mirror(d0, work / f"{stem}_mirror.cdxml")
             mir = check_file(ctx, mp, source, "mirror", mp.read_text())
             mirror_check(ctx, source, base, mir)
+            # new drawings: stereo marks re-drawn at random (other stereoisomers, marks at the other bond end), then mirrored
+            for r in range(1 if ctx.quick() else 6):
+                sp = L.variant_restereo(d0, work / f"{stem}_restereo.cdxml", rng)
+                tag = f"restereo-{r}"
+                sb = check_file(ctx, sp, source, tag, sp.read_text())
+                smp = L.variant_mirror(sb[0], work / f"{stem}_restereo_mirror.cdxml")
+                sm = check_file(ctx, smp, source, tag + ":mirror", smp.read_text())
+                mirror_check(ctx, source + ":" + tag, sb, sm, text=sp.read_text())
         if source.startswith("synthetic-labels") or not ctx.quick() or "BOX_4position" not in source:
             # permute
             pp = L.variant_permute(d0, work / f"{stem}_permute.cdxml", rng)
